@@ -174,6 +174,9 @@ def run(ctx):
     fringe.newline_exclusions(ctx)
     from props import glue
     glue.list_is_union(ctx)
+    from props import clauses
+    clauses.misc_clauses(ctx, 'C16')
+    clauses.negateall_default(ctx)
     return ctx.finish(RULE)
 
 
